@@ -70,6 +70,9 @@ CHECKS = {
  "C13": ("exploration", "stateful model-based property testing with compaction steps; closed-file length comparison; refusal-reason oracle; crash states inside compaction via C01's engine",
          "hist+crashsim", "Generated fragmented histories with compact() calls: contents unchanged, closed file not larger (known finding listed), refusals name a true condition; C01 enumerates crash states in the 'compact' phase.",
          "Size is compared between cleanly closed files (upstream's own notion, DESIGN.md section 7).", "DESIGN.md 4/C13"),
+ "C16": ("exploration", "schedule exploration of one shared WriteTransaction: generated per-table op streams on threads plus concurrent savepoint calls under generated schedules; oracle = per-table sequential models, independent page accounting, savepoint restore",
+         "sched+hist+decoder", "2-4 threads each drive their own table of one WriteTransaction against their own sequential model while other threads create/drop ephemeral savepoints under tape-decided schedules (or free-running); afterwards contents, page disjointness, exact accounting, and restore of every handed-out savepoint are checked.",
+         "Preemption only at named points/call boundaries and by the OS in free-running cases.", "DESIGN.md 4/C16"),
  "C17": ("exploration", "stateful model-based property testing of catalog operations with exact error-variant oracle",
          "hist", "Generated catalog histories over 6 names x 8 definitions with deliberately mismatching opens, renames, deletes, held handles, lists, aborts, reopen; compared with a model map including the exact TableError variant.",
          "TypeDefinitionChanged needs two Rust types with one TypeName and is not generated here.", "DESIGN.md 4/C17"),
